@@ -19,9 +19,10 @@ HEAP_TRUSTED = [
 ]
 def heap_conf(name, nq, nt, rule, extra_trusted=()):
     return {
+        "run_header_note": "programs are lists of HeapExt.xop ([Base o] = an operation of Heap.v)",
         "n": {"quick": nq, "thorough": nt},
         "per_shard": 60,
-        "run_header": "From Anytype Require Import Base FloatBits Value Heap Slice RunCommon RunHeap.\nLocal Open Scope Z_scope.\n",
+        "run_header": "From Anytype Require Import Base FloatBits Value Heap Slice HeapExt RunCommon RunHeap.\nLocal Open Scope Z_scope.\n",
         "run_check": "heap_check",
         "run_show": "heap_show",
         "mismatch_is_input": True,
@@ -58,6 +59,23 @@ def json_conf(nq, nt, rule, per_shard=40):
         "trusted": list(JSON_TRUSTED),
         "assumptions": ["floats finite and strings valid UTF-8 inside the theorems' domain (other inputs are still modelled and compared)"],
     }
+
+# alternative runners: cases tagged chk = "<name>" inside another engine's stream are evaluated with these settings
+ALT_CHECKS = {
+    "xheap": {
+        "per_shard": 25,
+        "run_header": "From Anytype Require Import Base FloatBits Value Heap Slice HeapExt RunCommon RunHeap.\nLocal Open Scope Z_scope.\n",
+        "run_check": "heap_check",
+        "run_show": "heap_show",
+    },
+}
+XHEAP_RULE = ("; plus a stream of heap-level programs (HeapExt.v) in which this property's operations are interleaved with valid-domain "
+              "mutations of the same containers through all their aliases, outcome and canonical heap hash compared after every step")
+XHEAP_TRUSTED = [
+    "heap-level programs (HeapExt.v): callbacks come from a finite family mirrored in the harness (4 predicates, 4 mapping functions, 4 reducers); "
+    "String/FormatString/NativeSlice/NativeDict are compared as the data they denote (encoding/json with UseNumber + the number rule on the Go side, "
+    "reify + sorted members on the Coq side); float aggregates are executed through Coq primitive floats (FloatExec.v)",
+]
 
 def k2_step(prop, tier, seed, work, env, sh):
     """C04, runtime part: a Go stack overflow is fatal to the process, so deep nesting is probed in a sub-process."""
@@ -273,3 +291,10 @@ PROPS = {
 # the thorough tier: ten times the quick volume (vm_compute inside Coq costs ~5-20 ms per case; an extracted runner was not needed)
 for _p, _c in PROPS.items():
     _c["n"]["thorough"] = _c["n"]["quick"] * 10
+
+# properties whose operations also run inside heap-level programs (harness/heapext.go: xStreams)
+for _p in ("C02", "C07", "C09", "C12", "C13", "C14", "C15", "C16", "C18"):
+    PROPS[_p]["alt_checks"] = ["xheap"]
+    PROPS[_p]["rule"] += XHEAP_RULE
+    PROPS[_p]["trusted"] = PROPS[_p].get("trusted", []) + HEAP_TRUSTED[1:] + XHEAP_TRUSTED
+    PROPS[_p]["mismatch_is_input_for"] = ["xheap"]
